@@ -814,6 +814,13 @@ fn run_early_stop(
         }
         let r = ex.exec(&v);
         if let StopKind::StdoutFails { .. } = kind {
+            ex.probe(match r.io.stdout_failed_writes_first_thread {
+                0 => "stdout_failed_writes_by_producer=0",
+                1 => "stdout_failed_writes_by_producer=1",
+                2 => "stdout_failed_writes_by_producer=2",
+                3..=4 => "stdout_failed_writes_by_producer=3..4",
+                _ => "stdout_failed_writes_by_producer>4",
+            });
             let n = r.io.stdout_failed_writes;
             ex.probe(match n {
                 0 => "stdout_failed_writes=0",
@@ -826,17 +833,23 @@ fn run_early_stop(
             });
         }
         if let StopKind::StdoutFails { .. } = kind {
-            // Bounded reaction: once a write to stdout has failed the tool stops producing output. On
-            // the unchanged tree at most 4 further attempts are ever made (the failing view / writer /
-            // statistics printer, then the report); a tool that keeps printing batch after batch into
-            // the closed pipe never ends on an endless input.
-            const MAX_FAILED_STDOUT_WRITES: u64 = 8;
-            if r.io.stdout_failed_writes > MAX_FAILED_STDOUT_WRITES {
+            // Bounded reaction: a closed stdout must be NOTICED. The producer (view / writer) runs into the
+            // failure again with every batch it prints; the tool reacts by reporting a fatal error, which
+            // makes the collector raise the stop flag. How many batches go by before the collector gets to
+            // run is a matter of scheduling (the analysis loop does not stop by itself), so the number of
+            // failed writes is not bounded by a constant under an adversarial schedule - but a run in which
+            // writes keep failing and NO fatal is ever reported and the stop flag is never raised has not
+            // noticed at all: on an endless input it would never end.
+            // (only for output that is produced while the input is processed: views and filtered data; the
+            // report and the statistics are printed once, at the end)
+            let streaming = !v.argv.iter().any(|a| a == "check");
+            let noticed = oracle::has_fatal(&r.stderr) || r.io.input_bytes_after_stop.is_some();
+            if streaming && r.io.stdout_failed_writes >= 3 && !noticed {
                 out.fail = Some(Fail::new(
                     "early-stop",
                     "keeps-writing-to-failed-stdout",
                     format!(
-                        "{} writes to stdout were attempted after it had failed at byte {:?} (bound {MAX_FAILED_STDOUT_WRITES}): the closed output is not noticed [cmd: {}]",
+                        "{} writes to stdout failed (first at byte {:?}) and the failure was never noticed: no fatal error reported, stop flag never raised [cmd: {}]",
                         r.io.stdout_failed_writes,
                         v.io.stdout_fail_at,
                         v.cmdline()
